@@ -60,8 +60,12 @@ def sess_concat(seed, sep='\n'):
                     ev['exports'].append({'ok': True, 'grid': session.grid_of(out), 'exc': ''})
                 except Exception as ex:  # noqa
                     ev['exports'].append({'ok': False, 'grid': [], 'exc': type(ex).__name__})
+            try:
+                ev['mcount_after'] = int(dc.measures_count())          # "the last 'to' equals the measure count" - also once the pairs were exported
+            except Exception:  # noqa
+                ev['mcount_after'] = 0
         except Exception as ex:  # noqa
-            ev.update(pairs=[], same=False, exports=[], exc=type(ex).__name__, mst=[])
+            ev.update(pairs=[], same=False, exports=[], exc=type(ex).__name__, mst=[], mcount_after=0)
         evs.append(ev)
     tags = dp.features(lines) | {'concat', 'sep=' + repr(sep)}
     return dp.finish_session(lines, evs, text, seed, tags)
